@@ -67,5 +67,14 @@ for pid in sorted(claims):
     )
 block("perproperty", "\n".join(parts))
 
+# harmless rewrites
+rows = ["| id | files rewritten | checks run against it (exit codes, in time order) |", "|---|---|---|"]
+for f in sorted(glob.glob(str(V / "harmless" / "*" / "meta.json"))):
+    m = json.loads(Path(f).read_text())
+    hid = Path(f).parent.name
+    runs = ", ".join(f"{p}: {'→'.join(str(x) for x in v)}" for p, v in m.get("runs", {}).items())
+    rows.append(f"| {hid} | {', '.join(x.replace('pyxel/', '') for x in m['files'])} | {runs} |")
+block("harmless", "\n".join(rows))
+
 (V / "DESIGN.md").write_text(design)
 print("DESIGN.md tables rewritten")
